@@ -390,6 +390,13 @@ void QXmppIncomingClient::handleStanza(const QDomElement &nodeRecv)
             }
         }
     } else if (ns == ns_client) {
+        // stanzas are accepted (bound, answered, routed) only from an authenticated client
+        if (d->jid.isEmpty()) {
+            warning(u"Received a stanza before authentication"_s);
+            sendData("<stream:error><not-authorized xmlns='urn:ietf:params:xml:ns:xmpp-streams'/></stream:error>");
+            disconnectFromHost();
+            return;
+        }
         if (nodeRecv.tagName() == u"iq") {
             const QString type = nodeRecv.attribute(u"type"_s);
             const auto id = nodeRecv.attribute(u"id"_s);
